@@ -34,6 +34,8 @@ CHECKS = {1: "one tracker per external transaction name across the three stores"
           6: "mint / refund happen in the transaction that crosses the threshold",
           7: "a tracker is created only by an accepted lock/redeem of a name in no store, with empty slots (redeem: debited in the same step)",
           9: "a transaction that its kind's Validate refuses (signer without key, negative vote index, SEND to/from a malformed address) has no effect",
+          11: "over all trackers ever created the external (decoded) transaction is unique: no second tracker, under another name, for an external transaction that already backed one",
+          12: "at most one mint per external transaction",
           10: "tracker stores and wrapped balances do not depend on the node's witness flag / job store (twin node with the flag off, same transactions)",
           8: "REGRESSION of the repaired defect C15.mint_to_report_locker: the locked amount was credited to the Locker named in the "
              "threshold-crossing report instead of the account that submitted the lock"}
@@ -114,37 +116,39 @@ def judge(ctx, cases, mm, sv):
 
 
 def erc20_probe(ctx, vh):
-    """The two ERC-20 lock resubmission scenarios on the real application (runERC20Lock has no existence check).
-    Outcome per scenario: 'holds' (resubmission refused, one mint to the first submitter), 'defect' (exactly the recorded
-    effect of the known finding, which is also what do_lock_erc in Tracker.v predicts for the stores), anything else = violation."""
+    """ERC-20 scenarios on the real application (`vh c15 -erc20`); every one must HOLD (all of them are witnesses of repaired defects:
+    A, B /repo 81bf4e3; C seeded lenient decoder; D /repo dec611a; E, F /repo f9d6d79).  Anything else is a violation."""
     out = os.path.join(ctx.scratch, "c15_erc20.json")
     rc, log = sh([vh, "c15", "-erc20", out], timeout=600)
     if rc != 0:
         raise Broken("C15 ERC-20 probe failed to run", log[-2000:])
     scs = json.load(open(out))
     res = {}
-    for tag, sc in zip("AB", scs):
-        steps = sc["steps"]
-        relock = [i for i, s in enumerate(steps) if "SAME external tx" in s["do"]][0]
-        r, fin = steps[relock], sc["final_ttc"]
-        if not r["ok"]:
-            ok = fin == {"acct1": "100", "acct2": "0", "acct99": "100"}
-            res[tag] = "holds" if ok else "other"
-        elif tag == "A":
-            model_stores = len(r["ongoing"] or []) == 1 and len(r["passed"] or []) == 1 and sum(r["ongoing"][0]["Votes"]) == 0
-            res[tag] = "defect" if model_stores and fin == {"acct1": "200", "acct2": "0", "acct99": "200"} else "other"
+    for sc in scs:
+        tag = sc["scenario"][0]
+        steps, fin = sc["steps"], sc["final_ttc"]
+        last = steps[-1]
+        same = [s for s in steps if "SAME external tx" in s["do"]]
+        n_on, n_pa, n_fa = len(last["ongoing"] or []), len(last["passed"] or []), len(last["failed"] or [])
+        if tag in "AB":
+            ok = all(not s["ok"] for s in same) and fin == {"acct1": "100", "acct2": "1000", "acct99": "1100"} and (n_on, n_pa) == (0, 1)
+        elif tag == "C":
+            ok = len(same) >= 5 and all(not s["ok"] for s in same) and n_on == 1 and fin["acct99"] == "1000"
+        elif tag == "D":
+            ok = len(same) >= 5 and all(not s["ok"] for s in same) and n_on == 1 and fin == {"acct1": "0", "acct2": "900", "acct99": "900"}
+        elif tag == "E":
+            ok = fin == {"acct1": "0", "acct2": "1000", "acct99": "1000"} and (n_on, n_pa, n_fa) == (0, 0, 1)
+        elif tag == "F":
+            ok = fin == {"acct1": "0", "acct2": "1000", "acct99": "1000"} and (n_on, n_pa, n_fa) == (0, 0, 1)
         else:
-            on = r["ongoing"] or []
-            model_stores = len(on) == 1 and on[0]["Owner"] == 2 and sum(on[0]["Votes"]) == 0
-            res[tag] = "defect" if model_stores and fin == {"acct1": "0", "acct2": "100", "acct99": "100"} else "other"
-    ctx.coverage["erc20_probe"] = {t: {"outcome": res[t], "scenario": sc["scenario"], "final_ttc": sc["final_ttc"]} for t, sc in zip("AB", scs)}
-    for tag, sc in zip("AB", scs):
-        if res[tag] == "holds":
-            continue
-        if res[tag] == "defect" and ctx.known_finding(ERC_TRIGGER, ""):
-            continue
-        ctx.violation("erc20_%s" % tag, {"kind": "erc20probe", "scenario": sc, "outcome": res[tag],
-                                         "how": "./check replay <this file> (re-runs `vh c15 -erc20` on the current tree)"})
+            ok = False
+        res[tag] = "holds" if ok else "violated"
+    ctx.coverage["erc20_probe"] = {sc["scenario"][0]: {"outcome": res[sc["scenario"][0]], "scenario": sc["scenario"], "final_ttc": sc["final_ttc"]} for sc in scs}
+    for sc in scs:
+        tag = sc["scenario"][0]
+        if res[tag] != "holds":
+            ctx.violation("erc20_%s" % tag, {"kind": "erc20probe", "scenario": sc, "outcome": res[tag],
+                                             "how": "./check replay <this file> (re-runs `vh c15 -erc20` on the current tree)"})
     return res
 
 
